@@ -84,8 +84,10 @@ class Degenerate:
             t = mo(r.choice(OPS_COMMON) if r.random() < 0.75 else r.choice(dict_ops()))
         elif k < 0.92:
             t = mtext(r.choice(TEXTS))
-        elif k < 0.95:
+        elif k < 0.94:
             t = N("ms", text=r.choice(["abc", "a b", "", "x"]))
+        elif k < 0.975:
+            t = self.mixed_token()
         else:
             t = self.html_token() if self.html else mi("h")
         if r.random() < 0.08 and t.raw is None:
@@ -93,6 +95,33 @@ class Degenerate:
         if r.random() < 0.04:
             t.attrs[r.choice(["mathcolor", "class", "data-foo", "stretchy", "form", "lspace"])] = r.choice(["red", "a&b", "x<y", "true", "prefix", "it's \"q\""])
         return t
+
+    PIECES = list("abfxyzAB12") + ["′", "'", "″", ".", "..", "-", "−", "|", "_", ":", ",", "!", "=", "+", " ", " ", "…", "°", "*", "^", "~", "π", "dx", "sin", "--"]
+
+    def mixed_token(self):
+        """token whose text mixes letters/digits with the characters that the clean-up treats specially (primes, dots, dashes, bars, ...)"""
+        r = self.rng
+        text = "".join(r.choice(self.PIECES) for _ in range(r.randint(2, 4)))
+        return N(r.choice(["mi", "mi", "mo", "mtext", "mn"]), text=text)
+
+    def special_run(self, depth):
+        """a row in which one special operator occurs several times, separated by operands, blanks or nothing (merging of dots, primes,
+        bars, underscores and number separators looks at runs of siblings)"""
+        r = self.rng
+        op = r.choice([".", ".", ",", "′", "'", "|", "_", "-", ":", "…", " ", "!", "*", "°"])
+        kids = []
+        for _ in range(r.randint(3, 7)):
+            k = r.random()
+            if k < 0.45:
+                kids.append(mo(op))
+            elif k < 0.8:
+                kids.append(self.token() if r.random() < 0.5 else r.choice([mi("x"), mn("1"), mn("23"), mi("y"), mn("456")]))
+            elif k < 0.9:
+                kids.append(N("mspace", width="0.2em") if r.random() < 0.5 else mtext(" "))
+            else:
+                kids.append(self.node(depth + 1))
+        self.count += len(kids)
+        return kids
 
     def html_token(self):
         r = self.rng
@@ -125,6 +154,8 @@ class Degenerate:
         self.count += 1
         k = r.random()
         d = depth + 1
+        if k < 0.05:
+            return mrow(*self.special_run(d))
         if k < 0.25:
             n = r.choice([0, 1, 1, 2, 3, 3, 4, 5])
             return mrow(*[self.child(d) for _ in range(n)])
@@ -226,7 +257,7 @@ class Degenerate:
         self.count = 0
         self.next_id = 0
         n = r.choice([1, 1, 1, 2, 3, 4])
-        root = math(*[self.node(0) for _ in range(n)])
+        root = math(*(self.special_run(0) if r.random() < 0.04 else [self.node(0) for _ in range(n)]))
         if r.random() < 0.1:
             root.attrs["display"] = "block"
         self.assign_ids(root)
